@@ -278,7 +278,7 @@ fn boxes_k<K: Kind>(c: &BoxCase, ctx: &mut Ctx) -> Result<(), Fail> {
         let p = scratch_dir().join("c05.shp");
         {
             let w = shapefile::ShapeWriter::from_path(&p).map_err(|e| Fail::new("write-error", err_str(&e)))?;
-            drive_writer(w, &shapes, c.file.fin, c.file.mid_fins).map_err(|e| Fail::new("write-error", e))?;
+            drive_writer_ff(w, &shapes, c.file.fin, c.file.mid_fins, c.file.rejects & 1 != 0).map_err(|e| Fail::new("write-error", e))?;
         }
         let disk = std::fs::read(&p).map_err(|e| Fail::new("disk-io", e.to_string()))?;
         let dd = refcodec::decode(&disk, Mode::Strict).map_err(|e| Fail::new("malformed", format!("from_path: {}", e)))?;
